@@ -51,6 +51,52 @@ class Hermetic:
     return False
 
 
+class HermeticPackage:
+  """Module state of a whole package is per run: every plain dict / list / set reachable as a module global, or as an
+  attribute of a class or function defined in one of the package's modules (memo tables, registries, caches), gets the
+  contents it had when the block was entered; globals and function attributes *created* inside the block are removed.
+  One explored path (or one native replay) therefore behaves like one fresh process, and whatever the code caches
+  within a path is still observed by the rest of that path."""
+  def __init__(self, package="audiolazy"):
+    self.package = package
+  def _namespaces(self):
+    import sys, types
+    out = []
+    for name, mod in list(sys.modules.items()):
+      if mod is None or not (name == self.package or name.startswith(self.package + ".")): continue
+      if ".tests" in name: continue
+      d = vars(mod)
+      out.append(d)
+      for v in list(d.values()):
+        if isinstance(v, (type, types.FunctionType)) and getattr(v, "__module__", None) == name:
+          try: out.append(vars(v))
+          except TypeError: pass
+    return out
+  def __enter__(self):
+    self.saved, self.keys = [], []
+    for d in self._namespaces():
+      self.keys.append((d, set(d.keys())))
+      for k, v in list(d.items()):
+        if type(v) in (dict, list, set):
+          self.saved.append((v, type(v)(v)))
+    return self
+  def __exit__(self, *a):
+    for v, old in self.saved:
+      try:
+        if isinstance(v, list): v[:] = old
+        else:
+          v.clear(); v.update(old)
+      except Exception:
+        pass
+    for d, keys in self.keys:
+      try:
+        for k in [k for k in list(d.keys()) if k not in keys]:
+          if isinstance(d, dict): d.pop(k, None)
+      except Exception:
+        pass
+    return False
+
+
 def isinf(x):
   if isinstance(x, (Sym, SymInt)): return False
   return math.isinf(x)
